@@ -3,7 +3,6 @@ use std::sync::atomic::{self, AtomicUsize};
 
 use skipfree::{SkipList, SkipListIterator};
 use sst::bounds_cursor::BoundsCursor;
-use sst::pruning_cursor::PruningCursor;
 use sst::{Cursor, Key, KeyRef};
 
 use super::WriteBatch;
@@ -68,8 +67,10 @@ impl MemTable {
     ) -> Result<MemTableCursor, SError> {
         let iter = self.skiplist.iter();
         let wrapper = SkipListIteratorWrapper { iter };
-        let cursor = PruningCursor::new(wrapper, timestamp)?;
-        let cursor = BoundsCursor::new(cursor, start_bound, end_bound)?;
+        // NOTE: no pruning here.  Tombstones must reach the merge with the other components so that
+        // they shadow older versions there; the caller prunes the merged stream at `timestamp`.
+        let _ = timestamp;
+        let cursor = BoundsCursor::new(wrapper, start_bound, end_bound)?;
         Ok(MemTableCursor { cursor })
     }
 }
@@ -129,7 +130,7 @@ impl Cursor for SkipListIteratorWrapper {
 ////////////////////////////////////////// MemTableCursor //////////////////////////////////////////
 
 pub struct MemTableCursor {
-    cursor: BoundsCursor<PruningCursor<SkipListIteratorWrapper>>,
+    cursor: BoundsCursor<SkipListIteratorWrapper>,
 }
 
 impl Cursor for MemTableCursor {
